@@ -187,6 +187,10 @@ func (e *escaper) escapeAction(c context, n *parse.ActionNode) context {
 		}
 	}
 	e.editActionNode(n, s)
+	if c.state == stateAttr && c.element.name == "link" && c.attr.name == "rel" {
+		// The rel value of this link element is not known statically.
+		c.attr.ambiguousValue = true
+	}
 	return c
 }
 
@@ -758,6 +762,12 @@ func contextAfterText(c context, s []byte) (context, int) {
 		// c.attr.value holds the static text of the attribute value seen in earlier text
 		// nodes (the value may be interrupted by template nodes), s[:i] is the rest.
 		ret.linkRel = " " + strings.Join(strings.Fields(strings.TrimSpace(strings.ToLower(c.attr.value+string(s[:i])))), " ") + " "
+		if c.attr.ambiguousValue {
+			// An action or differing conditional branches inside the value: the link may be
+			// anything, e.g. a style sheet. Add a value that is not a URL rel value, so that
+			// the href is treated as a TrustedResourceURL context.
+			ret.linkRel += "\x00 "
+		}
 	}
 	if c.delim != delimSpaceOrTagEnd {
 		// Consume any quote.
